@@ -1,6 +1,6 @@
 (* C11 — the generic lemmas instantiated with the tables of the Go toolchain (no hypothesis left). *)
 From Coq Require Import List Bool NArith.
-From C11 Require Import Model ModelDoc ProofsUtf8 ProofsLower ProofsText ProofsPath ProofsDoc ProofsLegacy ProofsTables.
+From C11 Require Import Model ModelDoc ProofsUtf8 ProofsLower ProofsText ProofsPath ProofsDoc ProofsLegacy ProofsForms ProofsTables.
 Open Scope N_scope.
 
 Definition go_lower_sides_agree := lower_sides_agree go_to_lower go_to_lower_ascii go_to_lower_idem.
@@ -150,3 +150,63 @@ Lemma legacy_invalid_witness :
   query_finds (lq_kw go_to_lower false v) (fst (kw_tokenize go_to_lower (ICfg false false 72 32768) 0 v)) = true /\
   query_finds (lq_kw go_to_lower true v) (fst (kw_tokenize go_to_lower (ICfg true false 72 32768) 0 v)) = false.
 Proof. vm_compute. split; reflexivity. Qed.
+
+(* ---------------------------------------------------------------- phase 3: in(...) and range forms *)
+Definition go_in_form_uniform := in_form_uniform go_is_letter go_is_number go_to_lower.
+Definition go_range_form_uniform := range_form_uniform go_to_lower.
+Definition go_exists_forms := exists_forms go_is_letter go_is_number go_to_lower.
+
+Notation go_query_in := (query_in go_is_letter go_is_number go_to_lower).
+
+Lemma go_keyword_in_findable : forall c fmax v ms k members,
+  (length v <= limit_of (max_tok c) fmax)%nat ->
+  has_rune WildcardRune v = false -> (cs c = false \/ valid_utf8 v = true) ->
+  nth_error ms k = Some v -> go_query_in TyKeyword (cs c) ms = Some members ->
+  nth_error members k = Some [qkw go_to_lower (cs c) v] /\
+  in_finds members (fst (kw_tokenize go_to_lower c fmax v)) = true.
+Proof.
+  intros c fmax v ms k members Hl Hw Hv Hk Hin.
+  destruct (go_kw_findable c fmax v Hl Hw Hv) as [t [_ [_ Hf]]].
+  destruct (go_in_form_uniform TyKeyword (cs c) ms k v members Hk Hin) as [lits [H1 [H2 [_ H4]]]].
+  cbn [query_lits] in H1. inversion H1; subst lits. split; [exact H2|]. apply H4. exact Hf.
+Qed.
+
+Lemma go_text_in_findable : forall c fmax v w ms k members,
+  v <> [] -> skipped TyText c fmax v = false ->
+  In w (words_of go_is_letter go_is_number (segs (indexed_part TyText c fmax v)) []) -> sizeok c w = true ->
+  nth_error ms k = Some w -> go_query_in TyText (cs c) ms = Some members ->
+  nth_error members k = Some [[TText (go_word_token c w)]] /\
+  in_finds members (fst (text_tokenize go_is_letter go_is_number go_to_lower c fmax v)) = true.
+Proof.
+  intros c fmax v w ms k members Hv Hsk Hw Hsz Hk Hin.
+  pose proof (go_text_consistent c fmax v Hv) as H. cbv zeta in H. rewrite Hsk in H.
+  destruct H as [_ [H _]]. destruct (H w Hw) as [Hq Hf].
+  destruct (go_in_form_uniform TyText (cs c) ms k w members Hk Hin) as [lits [H1 [H2 [_ H4]]]].
+  cbn [query_lits] in H1. inversion H1; subst lits. rewrite Hq in H2. split; [exact H2|].
+  apply H4. apply Hf. exact Hsz.
+Qed.
+
+Lemma go_path_in_findable : forall c fmax v q ms k members,
+  skipped TyPath c fmax v = false ->
+  In q (path_prefixes [] (indexed_part TyPath c fmax v) ++ [indexed_part TyPath c fmax v]) ->
+  has_rune WildcardRune q = false -> (cs c = false \/ valid_utf8 q = true) ->
+  nth_error ms k = Some q -> go_query_in TyPath (cs c) ms = Some members ->
+  nth_error members k = Some [[TText (go_ptok c q)]] /\
+  in_finds members (fst (path_tokenize go_to_lower c fmax v)) = true.
+Proof.
+  intros c fmax v q ms k members Hsk Hq Hw Hv Hk Hin.
+  pose proof (go_path_consistent c fmax v) as H. cbv zeta in H. rewrite Hsk in H.
+  destruct H as [_ H]. destruct (H q Hq Hw Hv) as [Ht Hf].
+  destruct (go_in_form_uniform TyPath (cs c) ms k q members Hk Hin) as [lits [H1 [H2 [_ H4]]]].
+  cbn [query_lits] in H1. inversion H1; subst lits. rewrite Ht in H2. split; [exact H2|].
+  apply H4. exact Hf.
+Qed.
+
+(* the regression of phase 3 as a model statement: without the forced case rule the in-form of `_exists_`
+   produces another term than the indexed title *)
+Lemma exists_in_without_rule_refuted :
+  let title := [116; 114; 97; 99; 101; 73; 68] in      (* "traceID" *)
+  go_query_in TyKeyword (eff_sens true false) [title] = Some [[[TText title]]] /\
+  go_query_in TyKeyword false [title] = Some [[[TText [116; 114; 97; 99; 101; 105; 100]]]] /\
+  in_finds [[[TText [116; 114; 97; 99; 101; 105; 100]]]] [title] = false.
+Proof. vm_compute. repeat split; reflexivity. Qed.
